@@ -99,8 +99,13 @@ TruncPoints(e) == IF Len(e) <= 24 THEN 0..(Len(e) - 1)
                   ELSE (0..9) \cup {Len(e) - 9, Len(e) - 2, Len(e) - 1} \cup {HeadLen(e) - 1, HeadLen(e), HeadLen(e) + 1}
 FlipPos(e) == 1..(IF Len(e) < 6 THEN Len(e) ELSE 6)
 FlipVals(b) == {0, 1, 2, 3, 4, 7, 252, 253, 254, 255, (b + 1) % 256, (b + 128) % 256}
-(* declared lengths far beyond the input: 2^16, 2^20, 2^26, 2^30-1, 2^30   *)
-HugeHeads == { <<2, 0, 4, 0>>, <<2, 0, 64, 0>>, <<2, 0, 0, 16>>, <<254, 255, 255, 255>>, <<3, 0, 0, 0, 64>> }
+(* declared lengths far beyond the input.  Where the code under test is known to allocate *)
+(* the declared length up front (byte strings) the executed cases stop at 2^22: touching  *)
+(* gigabytes makes the sandbox crawl and the verdict is the same.  Elsewhere up to 2^32-1. *)
+SmallHugeHeads == { <<2, 0, 4, 0>>, <<2, 0, 64, 0>>, <<2, 0, 0, 1>> }                     \* 2^16, 2^20, 2^22
+HugeHeads(t) == IF t.k \in {"bytes", "str"} \/ (t.k = "slice" /\ t.t.k \in {"u", "i"} /\ t.t.n = 1)
+                THEN SmallHugeHeads
+                ELSE SmallHugeHeads \cup { <<254, 255, 255, 255>>, <<3, 0, 0, 0, 64>>, <<3, 255, 255, 255, 255>> }
 
 Mutations(t, v) ==
   LET e == ScEnc(t, v) IN
@@ -110,15 +115,15 @@ Mutations(t, v) ==
     \cup (IF t.k \in {"compact", "bigint"} THEN {[mut |-> "widen", b |-> w] : w \in ScCompactWidened(v)} ELSE {})
     \cup (IF HasLenPrefix(t)
           THEN {[mut |-> "widen", b |-> w \o ScDrop(e, HeadLen(e))] : w \in ScCompactWidened(BnFromInt(Len(v)))}
-               \cup {[mut |-> "hugelen", b |-> h \o ScDrop(e, HeadLen(e))] : h \in HugeHeads}
+               \cup {[mut |-> "hugelen", b |-> h \o ScDrop(e, HeadLen(e))] : h \in HugeHeads(t)}
           ELSE {})
 
 --------------------------------------------------------------------------
 (* ---- cases ---------------------------------------------------------------*)
-RtCasesOf(t) == {[op |-> "rt", t |-> t, v |-> ValSeq(t)[i]] : i \in 1..Len(ValSeq(t))}
+(* Cases are enumerated by INDEX into ValSeq: TLC cannot build a set of values of      *)
+(* different shapes (e.g. the two payloads of a result), a sequence is fine.          *)
+RtCase(t, i) == [op |-> "rt", t |-> t, v |-> ValSeq(t)[i]]
 DecCasesOf(t, v) == {[op |-> "dec", t |-> t, b |-> m.b, mut |-> m.mut] : m \in Mutations(t, v)}
-CasesOf(t) == (IF "rt" \in CaseKinds THEN RtCasesOf(t) ELSE {})
-              \cup (IF "dec" \in CaseKinds THEN UNION {DecCasesOf(c.t, c.v) : c \in RtCasesOf(t)} ELSE {})
 
 DecRes(t, b) == ScDec(t, b)
 Result(o) == IF o.op = "rt" THEN [enc |-> ScEnc(o.t, o.v)] ELSE DecRes(o.t, o.b)
@@ -132,7 +137,7 @@ Leaves == <<ScU(1), ScU(2), ScU(4), ScU(8), ScI(1), ScI(2), ScI(4), ScI(8), ScU1
             ScBool, ScBytes, ScStr>>
 EnumA == ScEnum("A", << [i |-> 0, t |-> ScU(1)], [i |-> 1, t |-> ScTuple(<<ScU(2), ScBool>>)],
                         [i |-> 3, t |-> ScBytes], [i |-> 250, t |-> ScCompact] >>)
-EnumB == ScEnum("B", << [i |-> 1, t |-> ScU(4)], [i |-> 2, t |-> ScOpt(ScU(2))], [i |-> 5, t |-> ScStr] >>)
+EnumB == ScEnum("B", << [i |-> 1, t |-> ScU(4)], [i |-> 2, t |-> ScTuple(<<ScOpt(ScU(2))>>)], [i |-> 5, t |-> ScStr] >>)
 TagPatterns(n) == CASE n = 1 -> { <<-1>>, <<1>> }
                     [] n = 2 -> { <<-1, -1>>, <<2, 1>>, <<-1, 1>>, <<1, 2>> }
                     [] n = 3 -> { <<-1, -1, -1>>, <<3, 1, 2>>, <<-1, 2, 1>>, <<1, -1, 0>> }
@@ -212,8 +217,13 @@ Step(o) == /\ ~done
 Finish == /\ ~done /\ Len(hist) = Depth /\ done' = TRUE /\ UNCHANGED <<hist, part>>
 InitAll == hist = <<>> /\ done = FALSE /\ part \in Types
 InitRand == hist = <<>> /\ done = FALSE /\ part = ScBool
-NextAll == (\E o \in CasesOf(part) : Step(o)) \/ Finish
-NextRand == (\E o \in {RandCase(Len(hist))} : Step(o)) \/ Finish
+(* the guard comes first: TLC would otherwise enumerate the case set in every state *)
+NextAll == \/ /\ ~done /\ Len(hist) < Depth
+              /\ \E i \in 1..Len(ValSeq(part)) :
+                    \/ "rt" \in CaseKinds /\ Step(RtCase(part, i))
+                    \/ "dec" \in CaseKinds /\ \E o \in DecCasesOf(part, ValSeq(part)[i]) : Step(o)
+           \/ Finish
+NextRand == (~done /\ Len(hist) < Depth /\ \E o \in {RandCase(Len(hist))} : Step(o)) \/ Finish
 SpecAll == InitAll /\ [][NextAll]_vars
 SpecRand == InitRand /\ [][NextRand]_vars
 Dump == done => PrintT(<<"TRACE", ToJson(hist)>>)
